@@ -275,6 +275,10 @@ func rPlan(c rCase) (reads []rRead, frames [][]*ref.Frame) {
 		ps = append(ps, piece{now, unhx(e.Frame)})
 	}
 	flush := func(at int64, b []byte) {
+		for len(b) > 1023 { // a read never returns more than the connection's buffer holds
+			reads = append(reads, rRead{at, b[:1023]})
+			b = b[1023:]
+		}
 		if len(b) == 0 {
 			return
 		}
@@ -678,6 +682,12 @@ func rSearch(ctx *vc.Ctx, rep *vc.Report, prop string, alpha []rEvent, depth int
 			rep.Count(fmt.Sprintf("fixpoint_frontier_depth_%d", d), int64(len(frontier)))
 			if len(frontier) == 0 {
 				rep.Count("fixpoint_closed_at_depth", int64(d))
+				break
+			}
+			if depth > 16 && (d >= 16 || len(frontier) > 200000) {
+				// the state space does not close (it does on the unchanged tree, within a few levels): stop and say so
+				rep.Count("fixpoint_not_closed_stopped_at_depth", int64(d))
+				rep.Truncated = true
 				break
 			}
 		} else {
